@@ -42,6 +42,14 @@ import (
 	"github.com/restic/restic/internal/verifshim/xplore"
 )
 
+type verifC14Reader struct {
+	name string
+	run  func(ctx context.Context, gopts global.Options, target string, x *xplore.Exec) error
+}
+
+// verifC14ExtraReaders is filled by platform-specific files (the in-process mount reader).
+var verifC14ExtraReaders []verifC14Reader
+
 type verifC14Exec struct {
 	store              *gatebe.Store
 	werr, rerr         error
@@ -120,21 +128,19 @@ func TestVerif_C14(t *testing.T) {
 	newSig, _ := verifC14TreeSig(src)
 	backupOpts.TimeStamp = "2021-06-06 07:07:07"
 
-	type reader struct {
-		name string
-		run  func(ctx context.Context, gopts global.Options, target string) error
-	}
+	type reader = verifC14Reader
 	readers := []reader{
-		{"restore-latest", func(ctx context.Context, gopts global.Options, target string) error {
+		{"restore-latest", func(ctx context.Context, gopts global.Options, target string, _ *xplore.Exec) error {
 			return runRestore(ctx, RestoreOptions{Target: target}, gopts, gopts.Term, []string{"latest"})
 		}},
-		{"stats-all", func(ctx context.Context, gopts global.Options, _ string) error {
+		{"stats-all", func(ctx context.Context, gopts global.Options, _ string, _ *xplore.Exec) error {
 			return runStats(ctx, StatsOptions{countMode: countModeRawData}, gopts, nil, gopts.Term)
 		}},
-		{"ls-latest", func(ctx context.Context, gopts global.Options, _ string) error {
+		{"ls-latest", func(ctx context.Context, gopts global.Options, _ string, _ *xplore.Exec) error {
 			return runLs(ctx, LsOptions{Recursive: true}, gopts, []string{"latest"}, gopts.Term)
 		}},
 	}
+	readers = append(readers, verifC14ExtraReaders...)
 	bound := vh.Pick(r, 2, 3)
 	execNo := 0
 	for _, rd := range readers {
@@ -159,7 +165,7 @@ func TestVerif_C14(t *testing.T) {
 				})
 				x.Go("reader", func() {
 					st.rerr = verifRun(t, x.Ctx, ropts, func(ctx context.Context, gopts global.Options) error {
-						return rd.run(ctx, gopts, st.target)
+						return rd.run(ctx, gopts, st.target, x)
 					})
 					st.rdone = true
 				})
